@@ -461,8 +461,11 @@ func (g *gen) c11Edge() Op {
 	case 8:
 		return g.c11ConserveAny()
 	case 9:
-		if g.chance(0.5) {
+		switch g.r.Intn(3) {
+		case 0:
 			return Op{K: "exotic", N: g.r.Intn(1000)}
+		case 1:
+			return Op{K: "numsweep", N: g.r.Intn(1 << 20)}
 		}
 		return g.c11ConserveAny()
 	case 0, 1:
